@@ -218,7 +218,7 @@ def run(spec):
     kind = spec['kind']
     def solve(gauss):
         vals = _rho(mg.points, gauss)
-        if kind == 'ivp':
+        if kind == 'ivp' or spec.get('ivp'):
             return solve_poisson_ivp(mg, vals, inv, r_interval=(float(np.max(radial.points)), float(np.min(radial.points))))
         return solve_poisson_bvp(mg, vals, inv, **kw)
     if kind in ('bvp', 'ivp'):
@@ -232,6 +232,18 @@ def run(spec):
         res = float(np.max(np.abs(v12 - a * v1 - b * v2)))
         q = lambda g: sum(abs(c) for c, _, _ in g)
         return res, spec['linear_atol_unit'] * (q(g12) + abs(a) * q(g1) + abs(b) * q(g2)), 'linearity residual'
+    if kind == 'homog':
+        # linearity in the amplitude alone: V[a rho] = a V[rho] for amplitudes many orders of magnitude away from one
+        # (weak response / difference densities, other units); independent of the discretisation error
+        g1, a = spec['gauss'], spec['a']
+        ga = [(a * c, al, R) for c, al, R in g1]
+        v1, va = solve(g1)(pts), solve(ga)(pts)
+        res = float(np.max(np.abs(va - a * v1)))
+        # and the scaled density against the analytic potential, relative to its own charge
+        err = float(np.max(np.abs(va - _ref(pts, ga))))
+        q = sum(abs(c) for c, _, _ in g1)
+        return max(res / (spec['linear_atol_unit'] * 2 * abs(a) * q), err / (spec['atol_unit'] * abs(a) * q)), 1.0, \
+            'amplitude homogeneity |V[a rho] - a V[rho]| and |V[a rho] - analytic|, each in units of its tolerance'
     if kind == 'robust':
         with open(grid.__path__[0] + '/data/atomic_gauss_params.json') as f:
             table = json.load(f)
@@ -1392,6 +1404,15 @@ def _cases(ctx: Ctx, budget: str):
         # linearity (3 solves)
         add("poisson.solve_poisson_bvp:linearity", kind="linear", grid=_g1(ctx, deg=11), atoms=[Z], gauss=_centred(ctx, Z, 1), gauss2=_centred(ctx, Z, 2),
             a=round(ctx.rng.uniform(-2, 2), 3), b=round(ctx.rng.uniform(0.5, 3), 3), options={"remove_large_pts": 10.0})
+        # amplitude homogeneity with l > 0 components (off-centre).  Envelope measured on the pinned tree: the solvers carry
+        # ABSOLUTE tolerances (bvp: SciPy's mixed criterion r/(1+|f|) <= 1e-6; ivp: atol 1e-6 on u), so relative homogeneity
+        # holds for amplitudes 1e-5 <= |a| <= 1e3 (bvp; observed <= 0.27 of the tolerance; |a| >= 1e4: the solver raises
+        # "didn't converge", |a| <= 1e-6: absolute floor ~3e-10 takes over); the ivp solver is not homogeneous to this tolerance at any
+        # amplitude (observed up to 44x) and is not asserted -- scope note in DESIGN 8.3
+        for expo in (-5, ctx.rng.choice([-4, -3, -1, 2])):
+            add("poisson.solve_poisson_bvp:homogeneity", kind="homog", grid=_g2(ctx, deg=11, n=ctx.rng.randrange(50, 71)), atoms=[Z], gauss=_offcentre(ctx, Z, 1),
+                a=float(f"{ctx.rng.choice([1, -1]) * 10.0 ** expo * ctx.rng.uniform(1, 3):.3e}"),
+                options={"include_origin": False, "remove_large_pts": 10.0})
         # robust
         sym, zn = ctx.rng.choice([("H", 1), ("C", 6)])
         add("robust_poisson.solve_poisson_robust:exact-core", kind="robust", grid=_g1(ctx, deg=11), atoms=[Z], symbols=[sym], atnums=[zn], gauss=[],
@@ -1417,6 +1438,7 @@ def _cases(ctx: Ctx, budget: str):
     return cases
 
 
+GI_HOMOG = {"oned": "Trapezoidal", "n": 400, "tf": "Linear", "rmin": 1e-3, "R": 60.0, "deg": 5}
 GI = {"oned": "Trapezoidal", "n": 150, "tf": "Linear", "rmin": 1e-3, "R": 20.0, "deg": 3}            # both solvers are fast and accurate here (tests' kind of ivp grid)
 GM = {"oned": "Trapezoidal", "n": 40, "tf": "Becke", "rmin": 1e-6, "R": 1.5, "trim": True, "deg": 7}   # coarse molecular grid
 
